@@ -199,9 +199,7 @@ func runC19(c C19Case, cs *kit.CaseStats) (err error) {
 			continue
 		}
 		_, blocks, states, validated := tr.ResolveBatch(*st.Submit, func(id types.BlockID) bool {
-			_, ok1 := node.CM.State(id)
-			_, ok2 := twin.CM.State(id)
-			return ok1 && ok2
+			return node.ValidatedParent(id) && twin.ValidatedParent(id)
 		})
 		if len(blocks) == 0 {
 			continue
